@@ -377,7 +377,8 @@ def check_independence(ctx):
         for fi in mi.functions.values():
             decs = [ast.unparse(d) for d in fi.node.decorator_list]
             memo = [d for d in decs if any(k in d for k in ('cache', 'memo', 'lru'))]
-            ctx.check(not memo, 'C19.6', f"{fi.name}: not memoised", f"{memo}", fi.loc(), fi.qualname, f"memo:{fi.qualname}") if decs else None
+            remote_path = fi.qualname in (REMOTE_LOADER, FETCH, SHA, BASE + '.get_data_home') or fi.name.startswith('fetch_')
+            ctx.check(not memo, 'C19.6', f"{fi.name}: not memoised", f"{memo}", fi.loc(), fi.qualname, f"memo:{fi.qualname}") if decs and remote_path else None
     ctx.floor('C19.6', n, 6, 'modules in the datasets package')
     loaders = [l for l in c18.all_loaders(ctx).values() if l.kind == 'remote']
     slots = {}
